@@ -66,3 +66,15 @@ pub fn stub_free<T>(_m: &MemoryManager, _pt: *mut T, _num: usize) {
 pub fn stub_delete(_t: ToFree) {
     panic!("multiqueue2_verif: ToFree::delete reached although free() is stubbed");
 }
+
+impl MemoryManager {
+    /// Harness-only: (objects waiting in the retire list, objects in the batch handed to the
+    /// current reclamation cycle).  Every retired object is in one of the two or has been freed.
+    pub fn verif_pending(&self) -> (usize, usize) {
+        (self.wait_to_free.peek().len(), self.mem_manager.peek().tofree.len())
+    }
+    /// Harness-only: number of registered tokens.
+    pub fn verif_tokens(&self) -> usize {
+        self.mem_manager.peek().tokens.len()
+    }
+}
